@@ -166,6 +166,20 @@ theorem C36_server_rx_complete (ixes : List Ix) : ∀ ix' ∈ (srvParseAll .whol
     · exact hw
     · exact ih ix' h
 
+/-- **Packets intact, with a framing parser**: whatever way the bytes of a sequence of length-prefixed
+packets arrived and accumulated in a connection's buffer, `serviceReceives` cuts the buffer into
+exactly those packets, in order, and leaves nothing behind. -/
+theorem C36_framed_packets_recovered (fs : List Bytes) :
+    ixParseLoop .framed (flat (fs.map frame)).length (flat (fs.map frame)) [] = ([], fs.map frame) := by
+  have := ixParseLoop_frames fs (flat (fs.map frame)).length [] (by
+    induction fs with
+    | nil => simp
+    | cons p r ih => simp only [List.map_cons, flat, List.flatten_cons, List.length_append, List.length_cons, frame] at ih ⊢; omega)
+  simpa using this
+
+example : ixParseLoop .framed 7 [2, 10, 11, 0, 1, 12] [] = ([], [[2, 10, 11], [0], [1, 12]]) := by decide
+
+
 /-- **D21 on the unchanged tree**: the first server-side send raises `TypeError`
 (`self.handler.transmitIx(self, pkt.packed, ca)`), the packet is gone. -/
 theorem C36_counterexample_asis_server_send (s : Srv) (d : Bytes) (ca : Nat) (rest : List (Bytes × Nat))
